@@ -7,6 +7,8 @@ open Fault_model
 
 let rec pos_of_int n = if n = 1 then XH else if n land 1 = 1 then XI (pos_of_int (n lsr 1)) else XO (pos_of_int (n lsr 1))
 let z n = if n = 0 then Z0 else if n > 0 then Zpos (pos_of_int n) else Zneg (pos_of_int (-n))
+let rec int_of_pos = function XH -> 1 | XI p -> 2 * int_of_pos p + 1 | XO p -> 2 * int_of_pos p
+let iz = function Z0 -> 0 | Zpos p -> int_of_pos p | Zneg p -> - (int_of_pos p)
 let nn n = if n = 0 then N0 else Npos (pos_of_int n)
 let rec nat_of_int n = if n <= 0 then O else S (nat_of_int (n - 1))
 
@@ -41,7 +43,8 @@ let () =
                       last_op = (match lop with 1 -> OpSeek | 2 -> OpWrite | 3 -> OpRead | _ -> OpUnknown);
                       end_off = z eoff; cache = (cache = 1); dirty_dd = (ddd = 1); dirty_end = (dend = 1);
                       blocks = blocks; cursor = O; refcount = z rc; attach = z att; vmod = (vm = 1); vcalls = O;
-                      file_open = (fo = 1); writable = (wr = 1); own_aid = (own = 1) } in
+                      file_open = (fo = 1); writable = (wr = 1); own_aid = (own = 1);
+                      nb_published = false; nb_freed = false } in
            let fn = field rest "f" and arg = int_of_string (field rest "arg") in
            let md = field rest "mode" and k = int_of_string (field rest "k") in
            let prog = match fn with
@@ -55,6 +58,10 @@ let () =
              | "Hsync" -> Some hsync_prog
              | "Hclose" -> Some hclose_prog
              | "Hclose_orig" -> Some hclose_prog_orig
+             | "HTInew_dd_block" -> Some hTInew_dd_block_prog
+             | "HPgetdiskblock" -> Some (hPgetdiskblock_prog (fun _ -> z arg) true)
+             | "HTIupdate_dd" ->
+               Some (hTIupdate_dd_prog (fun s -> match s.blocks with b :: _ -> z (iz b.b_off + 6 + 12 * arg) | [] -> z 0))
              | _ -> None in
            (match prog with
             | None -> Printf.printf "%s M nomodel\n" ln
